@@ -3,6 +3,7 @@
 package c05
 
 import (
+	"os"
 	"encoding/json"
 	"fmt"
 	"sort"
@@ -213,7 +214,7 @@ var probes = []scen.Req{
 	{URI: "/probe?a=1&c=3"},
 	{URI: "/probe?b=2", Headers: [][2]string{scen.Form(), {"X-F", "match,capture,"}}, Body: "a=2&b=3"},
 	{URI: "/probe", Status: 200, RespHeaders: [][2]string{{"Content-Type", "text/plain"}, {"X-R", "1"}}, RespBody: "probe response"},
-	{URI: "/quiet", Headers: [][2]string{{"X-F", "setvar,"}}}, // fires no rule that logs or audits (except the nolog ones)
+	{URI: "/quiet"}, // fires no rule that logs or audits
 }
 
 // runProbe returns the full canonical outcome of probe i on w.
@@ -400,6 +401,9 @@ func checkCase(c *runner.Ctx, refs []string, p pred, report func(sig, text strin
 			continue
 		}
 		c.Outcome(got)
+		if os.Getenv("C05_DEBUG") != "" {
+			fmt.Printf("probe %d on recycled object:\n%s\n--- fresh:\n%s\n", pi, got, refs[pi])
+		}
 		if got != refs[pi] {
 			report("probe-differs:"+firstDiffKey(got, refs[pi]), "probe outcome on the recycled object differs from the outcome on a brand-new WAF:\n"+diffLines(got, refs[pi]), kase{Pred: p, Probe: pi})
 		}
@@ -501,7 +505,8 @@ func replay(raw json.RawMessage) (bool, string) {
 	if err := json.Unmarshal(raw, &k); err != nil {
 		return false, err.Error()
 	}
-	c := &runner.Ctx{Work: tmpWork()}
+	c := runner.NewCtxForReplay()
+	c.Work = tmpWork()
 	variant = k.Variant
 	defer func() { variant = 0 }()
 	refs, err := references(c)
